@@ -66,7 +66,7 @@ def stats(raw):
 
 
 e2check.run(dict(
-    prop='C19', model='elastic', harness='e2/elastic.cpp', bin='e2_elastic', props=['C19'], translators=['elastic.py', 'stateword.py'],
+    prop='C19', model='elastic', harness='e2/elastic.cpp', bin='e2_elastic', props=['C19', 'C19t'], translators=['elastic.py', 'stateword.py'],
     runs=runs, extra_runs=extra_runs, nontrivial=nontrivial, stats=stats, par=3, timeout_s=240,
     rule='histories of suspend/resume of processing units (elastic pool, one PU never suspended; issued from OS threads, tasks of the '
          'default pool and tasks of the pool itself) and of whole pools (suspend_direct racing with submitters, resume_direct or PU-wise '
